@@ -92,6 +92,14 @@ def generate(tape, tier="quick"):
             return gen_mixed_mesh(tape)
         return gen_unstructured(tape, dim, points_only=(k == "points"))
     src = one("src")
+    if dim == 2 and src["type"] in ("uniform", "rectilinear") and tape.chance(1, 6):
+        # a source with many more locations than the target (more than 256: index types chosen by the wrong count wrap)
+        n1, n2 = tape.choice([(20, 16), (33, 9), (18, 18)])
+        src["dims"] = [n1, n2]
+        if src["type"] == "uniform":
+            src["spacing"] = [0.25, 0.25]
+        else:
+            src["axes"] = [[src["axes"][0][0] + 0.25 * i for i in range(n1)], [src["axes"][1][0] + 0.25 * i for i in range(n2)]]
     rel = tape.weighted([("other", 6), ("relayout", 2)])
     if rel == "relayout" and src["type"] in ("uniform", "rectilinear", "esri"):
         dst = relayout(tape, src)
